@@ -10,8 +10,10 @@ type syncRec struct {
 	gsx.SyncObs
 }
 
-func runSyncCase(spec gsx.SyncSpec) syncRec {
-	return syncRec{K: "sync", SyncObs: gsx.RunSync(spec, nil, nil)}
+func runSyncCase(o *hx.Out, spec gsx.SyncSpec) {
+	for _, obs := range gsx.RunSyncAll(spec, nil, nil) {
+		o.Put(syncRec{K: "sync", SyncObs: obs})
+	}
 }
 
 func genSync(o *hx.Out, r *hx.Rng, n int) {
@@ -29,10 +31,21 @@ func genSync(o *hx.Out, r *hx.Rng, n int) {
 		// full participation: finality advances; common block answered below the finalized height
 		{N: 4, Prefix: 14, Own: 1, Peer: 3, Full: true, HCB: "low", Corrupt: -1, ErrAfter: -1},
 		{N: 4, Prefix: 14, Own: 1, Peer: 12, Full: true, HCB: "low", Corrupt: -1, ErrAfter: -1},
+		// the peer answers zero blocks forever / the first segment forever (fast sync and block sync)
+		{N: 4, Prefix: 3, Own: 2, Peer: 5, HCB: "honest", Corrupt: -1, ErrAfter: 2, Stall: "empty"},
+		{N: 4, Prefix: 3, Own: 2, Peer: 5, HCB: "honest", Corrupt: -1, ErrAfter: 0, Stall: "empty"},
+		{N: 4, Prefix: 3, Own: 2, Peer: 5, HCB: "honest", Corrupt: -1, ErrAfter: 2, Stall: "repeat"},
+		{N: 4, Prefix: 5, Own: 1, Peer: 13, HCB: "honest", Corrupt: -1, ErrAfter: 3, Stall: "empty"},
+		{N: 4, Prefix: 5, Own: 1, Peer: 13, HCB: "honest", Corrupt: -1, ErrAfter: 3, Stall: "repeat"},
+		// failed block sync leaves temp blocks behind; own blocks on top; then a fast sync with an invalid block
+		{N: 4, Prefix: 4, Own: 3, Peer: 12, HCB: "honest", Corrupt: -1, ErrAfter: 6, Second: true, Own2: 2, HCB2: "honest", Corrupt2: 1, CorruptKind2: "sig", ErrAfter2: -1},
+		{N: 4, Prefix: 4, Own: 3, Peer: 12, HCB: "honest", Corrupt: -1, ErrAfter: 6, Second: true, Own2: 0, HCB2: "honest", Corrupt2: 2, CorruptKind2: "sig", ErrAfter2: -1},
+		// failed block sync, then an honest fast sync
+		{N: 4, Prefix: 4, Own: 3, Peer: 12, HCB: "honest", Corrupt: -1, ErrAfter: 6, Second: true, Own2: 1, HCB2: "honest", Corrupt2: -1, ErrAfter2: -1},
 	}
 	for i, s := range fixed {
 		if i < n {
-			o.Put(runSyncCase(s))
+			runSyncCase(o, s)
 		}
 	}
 	for i := len(fixed); i < n; i++ {
@@ -65,7 +78,18 @@ func genSync(o *hx.Out, r *hx.Rng, n int) {
 			}
 		case 2:
 			s.ErrAfter = r.Intn(s.Peer + 1)
+			s.Stall = []string{"", "", "empty", "repeat"}[r.Intn(4)]
 		}
-		o.Put(runSyncCase(s))
+		if r.Intn(5) == 0 { // a second sync with the same peer afterwards
+			s.Second, s.HCB2, s.Corrupt2, s.ErrAfter2, s.CorruptKind2 = true, "honest", -1, -1, "sig"
+			s.Own2 = r.Intn(3)
+			switch r.Intn(3) {
+			case 0:
+				s.Corrupt2 = r.Intn(s.Peer)
+			case 1:
+				s.ErrAfter2 = r.Intn(s.Peer + 1)
+			}
+		}
+		runSyncCase(o, s)
 	}
 }
